@@ -2,6 +2,9 @@ import AtreeModel.Commit
 import AtreeModel.Gen.Facts
 import AtreeProofs.StorageLemmas
 import AtreeProofs.CommitLemmas
+import AtreeProofs.StorageLemmas2
+import AtreeProofs.PoolLemmas
+import AtreeProofs.StorageExample2
 /-
   C04 — Ledger state is a deterministic function of the operation history (the part that is
   logic).  Goroutine scheduling, Go map iteration order, sync.Pool reuse and process identity are
@@ -16,18 +19,24 @@ def callID : BaseCall β → SlabID
   | .store id _ => id
   | .remove id => id
 
+/-- `callID` is the helper of the same name in AtreeProofs/StorageLemmas2.lean. -/
+theorem callID_eq : (callID : BaseCall β → SlabID) = Atree.callID := by
+  funext x; cases x <;> rfl
+
 /-- The deterministic commit issues its register writes and deletions in strictly ascending
     (owner, index) order — for every write set, with or without faults. -/
 theorem fastcommit_order_sorted (s : St σ β) (h : Inv c s) (fault : Nat → Bool) :
     ((s.fastCommit c fault).log.map callID).Pairwise (fun a b => SlabID.lt a b = true) := by
-  sorry
+  rw [callID_eq]
+  exact (pairwise_sortedOwnedDeltaKeys s h.deltasNodup).sublist
+    (fastCommit_log_prefix c fault s).sublist
 
 /-- `SlabID.lt` is a strict total order on identifiers (so "ascending" determines the sequence). -/
 theorem lt_strict_total (a b d : SlabID) :
     (SlabID.lt a a = false) ∧
     (SlabID.lt a b = true → SlabID.lt b d = true → SlabID.lt a d = true) ∧
     (a ≠ b → (SlabID.lt a b = true ∨ SlabID.lt b a = true)) := by
-  sorry
+  exact ⟨SlabID.lt_irrefl a, SlabID.lt_trans, SlabID.lt_total⟩
 
 /-- The result of the deterministic commit does not depend on the number of workers or on the
     goroutine schedule: for every worker count ≥ 1 and every schedule that lets the pool finish,
@@ -39,12 +48,16 @@ theorem fastcommit_schedule_invariant (s : St σ β) (h : Inv c s) (fault : Nat 
     let r := s.fastCommitPool c fault workers sched
     let r0 := s.fastCommit c fault
     r.st = r0.st ∧ r.err = r0.err ∧ r.log = r0.log := by
-  sorry
+  intro r r0
+  have _ := hw   -- (the worker count is clamped to the job count; `1 ≤ workers` is not needed)
+  have : r = r0 := fastCommitPool_eq c fault s h.deltasNodup workers sched hfin
+  rw [this]
+  exact ⟨rfl, rfl, rfl⟩
 
 /-- Finishing schedules exist for every worker count (the statement above is not vacuous). -/
 theorem finishing_schedule_exists {ι ρ : Type} (f : ι → ρ) (jobs : List ι) (workers : Nat) (hw : 1 ≤ workers) :
     Pool.finished (Pool.runSchedule f (Pool.initState jobs workers) (Pool.roundRobin workers jobs.length)) = true := by
-  sorry
+  exact Pool.roundRobin_finishes f jobs workers hw
 
 /-- The order-relaxed commit may differ only in order: without faults it leaves the same ledger
     (as a function of the identifier) as the deterministic commit, for every enumeration order of
@@ -55,12 +68,100 @@ theorem nondet_commit_same_final_ledger (hc : RoundTrip c) (s : St σ β) (h : I
     let r0 := s.fastCommit c (fun _ => false)
     r.err = none ∧ (∀ id, AList.find? r.st.base id = AList.find? r0.st.base id) ∧
     (r.log.map callID).Perm (r0.log.map callID) := by
-  sorry
+  intro r r0
+  have hr : r = commitW c .nondet (fun _ => false) mo dlo s := rfl
+  have hr0 : r0 = commitW c .det (fun _ => false) [] [] s := rfl
+  obtain ⟨f1, _, f3⟩ := commitW_complete c hc .nondet (fun _ => false) (fun _ => rfl) mo dlo s h hne
+  obtain ⟨g1, _, g3⟩ := commitW_complete c hc .det (fun _ => false) (fun _ => rfl) [] [] s h hne
+  rw [← hr] at f1 f3
+  rw [← hr0] at g1 g3
+  refine ⟨f1, fun id => by rw [f3 id, g3 id], ?_⟩
+  -- both logs enumerate the owned pending identifiers exactly once
+  have hr' : r = commitKeys c (fun _ => false) s
+      (nondetKeys (normOrder s.modifiedOwned mo) (normOrder s.deletedOwned dlo)) :=
+    nondetCommit_eq c _ s _ _
+  have hr0' : r0 = commitKeys c (fun _ => false) s (sortedOwnedDeltaKeys s) := by
+    show fastCommit c (fun _ => false) s = _
+    unfold fastCommit
+    simp [anyEncodeFails_false c s _ hne]
+  rw [callID_eq]
+  rw [hr'] at f1 ⊢
+  rw [hr0'] at g1 ⊢
+  rw [commitKeys_log_full c _ s _ f1, commitKeys_log_full c _ s _ g1]
+  exact (ownedKeys_nondet s h.deltasNodup mo dlo).perm (ownedKeys_sorted s h.deltasNodup)
 
 /-- The source-level premises (regenerated on every run): worker closures do not write storage
     state; pooled objects are reset before they are returned to their pool. -/
 theorem source_premises :
     Gen.workerClosuresWriteFree = true ∧ Gen.workerClosureCount = 3 ∧ Gen.putResetsBeforePool = true := by
-  sorry
+  exact ⟨rfl, rfl, rfl⟩
+
+/-! ### Non-vacuity
+
+`Example.poolSt` (AtreeProofs/StorageExample2.lean) is a reachable state with four owned pending
+identifiers `1.1 ↦ 5`, `1.2` (deletion of a committed register), `1.5 ↦ 2`, `2.1 ↦ 4` and a pending
+temporary slab `0.1`.  The theorems are instantiated on it and compared with evaluation. -/
+section NonVacuity
+open Atree.Example
+
+example : RoundTrip natCodec ∧ Inv natCodec poolSt ∧ NoEncodeFailure natCodec poolSt :=
+  ⟨roundTrip, poolInv, noEncodeFailure poolSt⟩
+
+/-- The write set is stored in a different order than it is committed. -/
+example : AList.keys poolSt.deltas = [⟨0, 1⟩, ⟨1, 1⟩, ⟨1, 2⟩, ⟨1, 5⟩, ⟨2, 1⟩] ∧
+    (exSt.fastCommit natCodec (fun _ => false)).log.map callID = [⟨1, 1⟩, ⟨1, 2⟩] := by decide
+
+/-- `fastcommit_order_sorted`: fault-free, and with the third call failing (a proper prefix). -/
+example : (poolSt.fastCommit natCodec (fun _ => false)).log.map callRepr =
+    [(⟨1, 1⟩, some 5), (⟨1, 2⟩, none), (⟨1, 5⟩, some 2), (⟨2, 1⟩, some 4)] := by decide
+example : (poolSt.fastCommit natCodec (faultPlan [2])).log.map callID = [⟨1, 1⟩, ⟨1, 2⟩, ⟨1, 5⟩] ∧
+    (poolSt.fastCommit natCodec (faultPlan [2])).err = some .external := by decide
+example := fastcommit_order_sorted natCodec poolSt poolInv (faultPlan [2])
+
+/-- `Pairwise lt` is a real constraint: the enumeration order of the write set violates it. -/
+example : ¬ ([⟨1, 5⟩, ⟨1, 1⟩] : List SlabID).Pairwise (fun a b => SlabID.lt a b = true) := by decide
+
+/-- `fastcommit_schedule_invariant`: 3 workers, an interleaved schedule that finishes; the encoder
+    results arrive in the order `1.5, 1.1, 2.1, 1.2`, yet the commit is the sequential one. -/
+example :
+    let p := Pool.runSchedule (encodeJob natCodec poolSt)
+      (Pool.initState (sortedOwnedDeltaKeys poolSt) (min 3 (sortedOwnedDeltaKeys poolSt).length)) poolSched
+    Pool.finished p = true ∧
+    p.results.map (·.1) = [⟨1, 5⟩, ⟨1, 1⟩, ⟨2, 1⟩, ⟨1, 2⟩] := by decide
+example :
+    let r := poolSt.fastCommitPool natCodec (fun _ => false) 3 poolSched
+    let r0 := poolSt.fastCommit natCodec (fun _ => false)
+    r.st.base = r0.st.base ∧ r.st.deltas = r0.st.deltas ∧ r.st.cache = r0.st.cache ∧
+    r.err = r0.err ∧ r.log.map callRepr = r0.log.map callRepr ∧
+    r0.st.base = [(⟨2, 1⟩, 4), (⟨1, 5⟩, 2), (⟨1, 1⟩, 5)] := by decide
+example := fastcommit_schedule_invariant natCodec poolSt poolInv (faultPlan [1]) 3 (by decide) poolSched
+  (by decide)
+
+/-- A schedule that does not let the pool finish is excluded by the hypothesis (and really gives
+    a different result: the collected map is incomplete). -/
+example :
+    Pool.finished (Pool.runSchedule (encodeJob natCodec poolSt)
+      (Pool.initState (sortedOwnedDeltaKeys poolSt) 3) [0, 0]) = false ∧
+    (poolSt.fastCommitPool natCodec (fun _ => false) 3 [0, 0]).log.map callRepr ≠
+      (poolSt.fastCommit natCodec (fun _ => false)).log.map callRepr := by decide
+
+/-- `finishing_schedule_exists` evaluated: 3 workers, 4 jobs. -/
+example : Pool.finished (Pool.runSchedule (fun n : Nat => n + 1) (Pool.initState [10, 20, 30, 40] 3)
+    (Pool.roundRobin 3 4)) = true := by decide
+
+/-- `nondet_commit_same_final_ledger`: deletions first, then the modified keys in the order
+    `2.1, 1.5, 1.1` — a different call order, the same ledger. -/
+example :
+    let r := poolSt.nondetCommit natCodec (fun _ => false)
+      (normOrder poolSt.modifiedOwned [⟨2, 1⟩, ⟨1, 5⟩]) (normOrder poolSt.deletedOwned [])
+    let r0 := poolSt.fastCommit natCodec (fun _ => false)
+    r.log.map callID = [⟨1, 2⟩, ⟨2, 1⟩, ⟨1, 5⟩, ⟨1, 1⟩] ∧
+    r0.log.map callID = [⟨1, 1⟩, ⟨1, 2⟩, ⟨1, 5⟩, ⟨2, 1⟩] ∧
+    r.st.base = [(⟨1, 1⟩, 5), (⟨1, 5⟩, 2), (⟨2, 1⟩, 4)] ∧
+    r0.st.base = [(⟨2, 1⟩, 4), (⟨1, 5⟩, 2), (⟨1, 1⟩, 5)] := by decide
+example := nondet_commit_same_final_ledger natCodec roundTrip poolSt poolInv (noEncodeFailure poolSt)
+  [⟨2, 1⟩, ⟨1, 5⟩] []
+
+end NonVacuity
 
 end Atree.C04
